@@ -39,3 +39,25 @@ open CalmVerif.Props.C07
 #check @kf07c_binding_not_preserved
 #print axioms ok_program_preserved
 #check @ok_program_preserved
+#print axioms only_identifiers_change
+#check @only_identifiers_change
+#print axioms only_identifiers_change_printer
+#check @only_identifiers_change_printer
+#print axioms fragSim_spelled
+#check @fragSim_spelled
+#print axioms resolution_commutes_with_renaming
+#check @resolution_commutes_with_renaming
+#print axioms binding_preserved_partial
+#check @binding_preserved_partial
+#print axioms binding_preserved_pointwise
+#check @binding_preserved_pointwise
+#print axioms kf07a_excluded
+#check @kf07a_excluded
+#print axioms kf07b_excluded
+#check @kf07b_excluded
+#print axioms kf07c_excluded
+#check @kf07c_excluded
+#print axioms ok_program_aligned
+#check @ok_program_aligned
+#print axioms ok_program_keysPlain
+#check @ok_program_keysPlain
